@@ -493,7 +493,9 @@ def check_reparse(spec, ctx):
             ctx.eq("tx_exons", [(b.start, b.end) for b in pt.chromosome_location.blocks], [tuple(b) for b in stx["exons"]])
             ctx.eq("tx_strand", pt.strand.to_symbol(), stx["strand"])
             ctx.eq("tx_symbol", pt.transcript_symbol, stx["transcript_symbol"])
-            ctx.eq("tx_biotype", pt.transcript_type.name if pt.transcript_type else None, stx["transcript_type"])
+            ctx.eq("tx_biotype", pt.transcript_type.name if pt.transcript_type else None, stx["transcript_type"] or sg["gene_type"])
+            if stx["transcript_type"] is None and any(t2.get("transcript_type") not in (None, sg["gene_type"]) for t2 in sg["transcripts"]):
+                ctx.label("untyped_isoform_next_to_one_of_another_biotype")
             if "cds" in stx:
                 if ctx.true("tx_cds_present", pt.cds is not None):
                     ctx.eq("tx_cds_blocks", list(zip(pt.cds._genomic_starts, pt.cds._genomic_ends)), [tuple(b) for b in stx["cds"]])
@@ -733,7 +735,8 @@ def strat_reparse(draw, tier="quick"):
         for j, t in enumerate(g["transcripts"]):
             t["transcript_id"] = "g%dt%d" % (i, j)
             t["transcript_symbol"] = "ts%d_%d%s" % (i, j, draw(st.text(alphabet="xy &'>", max_size=2)))
-            t["transcript_type"] = draw(st.sampled_from([g["gene_type"], g["gene_type"], "protein_coding" if "cds" in t else "ncRNA", "tRNA"]))
+            # (an isoform may carry no biotype of its own: it is written "unspecified" and read back with the gene's)
+            t["transcript_type"] = draw(st.sampled_from([g["gene_type"], g["gene_type"], "protein_coding" if "cds" in t else "ncRNA", "tRNA", None]))
             t["qualifiers"] = draw(qs)
             if "cds" in t:
                 t["protein_id"] = draw(st.one_of(st.none(), st.just("prot%d_%d" % (i, j))))
@@ -782,7 +785,7 @@ PROP = Prop(
             must_hit=["collections_given_out_of_name_order", "unordered", "with_fasta"],
             rule="2..3 collections on differently named sequences written into ONE file (ordered / unordered, +-FASTA): one block of rows per sequence in the documented order, each block equal to its collection's rows and ordered by start, IDs unique and Parents resolving over the whole file, one FASTA record and sequence-region directive per sequence"),
         Leg("reparse", check_reparse, strategy=strat_reparse, n_quick=70, n_thorough=700, shards_quick=8,
-            must_hit=["tx_biotype!=gene_biotype", "zero_gap_cds", "lookalike_key", "with_fasta"],
+            must_hit=["tx_biotype!=gene_biotype", "zero_gap_cds", "lookalike_key", "with_fasta", "untyped_isoform_next_to_one_of_another_biotype"],
             rule="1..3 genes (1..3 isoforms, coding/non-coding, offsets, 0-bp-gap CDS, transcript biotype equal to or different from the gene's), qualifier values without comma/double quote; export -> parse_standard_gff3 / parse_gff3_embedded_fasta -> compare -> re-export"),
         Leg("attributes", check_attributes, strategy=strat_attributes, n_quick=2500, n_thorough=50000,
             must_hit=["special_char:semicolon", "special_char:percent", "special_char:comma", "special_char:unicode"],
